@@ -608,6 +608,21 @@ func TestVerifC20Meta(t *testing.T) {
 		emit(b, "none", func(*prepared) []c20mLeaf { return nil })
 	}
 
+	// corpus witness of C20-F5: a schema-required leaf (basic_auth password) moved to the environment
+	for _, b := range bases {
+		if b.name == "small" {
+			emit(b, "corpus", func(p *prepared) []c20mLeaf {
+				for _, l := range p.leaves {
+					if strings.HasSuffix(c20mEnvName(l), "_CONFIG_PASSWORD") {
+						return []c20mLeaf{l}
+					}
+				}
+
+				return nil
+			})
+		}
+	}
+
 	for i := 0; i < n; i++ {
 		r := root.Fork(uint64(i))
 		b := bases[r.Intn(len(bases))]
